@@ -212,6 +212,7 @@ def check(ctx):
     _ufunc_table(ctx, rep)
     _power_operator(ctx, rep, model)
     _block_derivatives(ctx, rep, model)
+    _derivative_liveness(rep, model)
     return rep
 
 
@@ -468,3 +469,89 @@ def _block_derivatives(ctx, rep, model):
                 rep.undecided('R6', cons, str(e), PSO)
         except PyRaise as e:
             rep.violation('R6', cons, 'raises %s' % e.name, PSO)
+
+
+# --------------------------------------------------------------------------
+# R7: parameter liveness of derivatives.  A constructor parameter that the
+# value of an operator (`_call`) depends on must also reach `derivative` --
+# unless it is an additive constant / shift or a scratch temporary (named
+# exceptions): the Frechet derivative of x -> A_p(x) cannot be independent
+# of a parameter p that changes the operator non-additively.
+DERIV_LIVENESS_EXCEPTIONS = {
+    ('ConstantOperator', 'constant'): 'the operator is constant: derivative '
+                                      'zero for every value',
+    ('OperatorVectorSum', 'vector'): 'additive shift',
+    ('OperatorRightScalarMult', 'tmp'): 'scratch temporary',
+    ('ResizingOperator', 'ran_shp'): 'the derivative is built on self.range, '
+                                     'which fixes the shape and the offset '
+                                     '(confirmed: offsets agree)',
+}
+LIVENESS_FILES = (
+    'odl/operator/default_ops.py', 'odl/operator/tensor_ops.py',
+    'odl/operator/pspace_ops.py', 'odl/discr/diff_ops.py',
+    'odl/discr/discr_ops.py', 'odl/operator/operator.py',
+    'odl/deform/linearized.py')
+
+
+def _derivative_liveness(rep, model):
+    from .c07 import _attr_params, _self_reads
+    n = 0
+
+    def norm(a):
+        return a.split('__')[-1] if a.startswith('__') else a
+    for ci in sorted(model.classes.values(), key=lambda c: (c.rel, c.name)):
+        if ci.rel not in LIVENESS_FILES or not model.is_subclass(
+                ci, 'Operator'):
+            continue
+        call = ci.methods.get('_call')
+        der = ci.methods.get('derivative')
+        if call is None or der is None:
+            continue
+        amap, params = _attr_params(model, ci)
+        if not amap:
+            continue
+        body = [s for s in der.body if not (isinstance(s, ast.Expr) and
+                                            isinstance(s.value,
+                                                       ast.Constant))]
+        if len(body) == 1 and isinstance(body[0], ast.Raise):
+            continue
+        n += 1
+
+        def closure(node):
+            reads = set()
+            todo = list(_self_reads(node))
+            while todo:
+                a = norm(todo.pop())
+                if a in reads:
+                    continue
+                reads.add(a)
+                dc, m = model.lookup(ci, a)
+                if isinstance(m, ast.FunctionDef) and m is not node and \
+                        a not in ('_call', 'derivative', 'adjoint',
+                                  'inverse'):
+                    todo.extend(_self_reads(m))
+            return reads
+
+        def to_params(attrs):
+            ps = set()
+            for a in attrs:
+                ps |= amap.get(a, set())
+            return ps - {'space', 'domain', 'range', 'dom', 'ran'}
+        vp = to_params(closure(call))
+        rets = [r for r in ast.walk(der) if isinstance(r, ast.Return)]
+        returns_self = any(isinstance(r.value, ast.Name) and
+                           r.value.id == 'self' for r in rets)
+        rp = to_params(closure(der))
+        missing = sorted(a for a in vp - rp
+                         if (ci.name, a) not in DERIV_LIVENESS_EXCEPTIONS)
+        cons = ci.name + '.derivative'
+        if missing and not (returns_self and len(rets) == 1):
+            rep.violation(
+                'R7', cons, 'the operator depends on the constructor '
+                'parameter(s) %s which derivative() never reads: the '
+                'returned operator cannot be the derivative for every value '
+                'of them' % missing, ci.rel, der.lineno)
+        else:
+            rep.holds('R7', cons, 'reads every value parameter %s'
+                      % sorted(vp))
+    rep.floor('R7', 'operators with _call and derivative', n, 20)
